@@ -41,19 +41,19 @@ BOUNDS = {
                               "kinds (primary/secondary) can be live at the same time",
                   initial="A with and without an initial sensitivity (keep_alloc True/False)",
                   configurations="shape x dtype x initial x primary slice kind = 56 array + 4 scalar configurations",
-                  enumeration="array configurations: ALL words of length 2 over the 16-letter alphabet (preconditions "
+                  enumeration="array configurations: ALL words of length 3 over the 16-letter alphabet (preconditions "
                               "respected; prefixes are checked on the way) plus a deterministic seeded sample "
                               "(random.Random('C18/<config>')) of 100 words of length 4; scalar configurations: ALL "
                               "words of length 3 over the 8-letter alphabet plus 60 sampled words of length 4",
-                  exhaustive_len=2, sampled=[(4, 100)], group_size=56),
+                  exhaustive_len=3, sampled=[(4, 100)], group_size=250),
     "thorough": dict(history_length=6, shapes=["scalar", "(4,)", "(2,3)", "(2,2,2)"], dtypes=["real", "complex"],
                      slice_kinds="as quick", initial="as quick", configurations="as quick",
-                     enumeration="1-D real configurations (8): ALL words of length 4; other array configurations (48): ALL "
-                                 "words of length 3 plus a seeded sample of 150 words of length 4; every array "
+                     enumeration="1-D configurations (16, real and complex): ALL words of length 4; 2-D and 3-D configurations "
+                                 "(40): ALL words of length 3 plus a seeded sample of 150 words of length 4; every array "
                                  "configuration: a seeded sample of 150 words of length 6; scalar configurations: ALL "
                                  "words of length 4 plus 200 sampled words of length 6. Words of length 5-6 and (outside "
-                                 "1-D real) of length 4 are therefore covered by sampling only",
-                     exhaustive_len=3, exhaustive_len_1d_real=4, sampled=[(4, 150), (6, 150)], group_size=400),
+                                 "1-D) of length 4 are therefore covered by sampling only",
+                     exhaustive_len=3, exhaustive_len_1d=4, sampled=[(4, 150), (6, 150)], group_size=400),
 }
 OUTSIDE = ["index arrays with repeated entries (excluded by the property)",
            "a basic slice nested on an integer-array slice (the parent getter returns a copy; see report)",
@@ -204,8 +204,8 @@ def _words(c, tier, nof=False):
         if tier == "quick":
             return all_words("s", OPS_SCALAR, 3, None, None) + sample_words("s", OPS_SCALAR, 4, 60, rnd, None, None)
         return all_words("s", OPS_SCALAR, 4, None, None) + sample_words("s", OPS_SCALAR, 6, 200, rnd, None, None)
-    full4 = tier == "thorough" and sk == "1" and not c["cplx"]
-    words = all_words(sk, OPS_ARRAY, b["exhaustive_len_1d_real"] if full4 else b["exhaustive_len"], c["k1"], c["k2"], nof)
+    full4 = tier == "thorough" and sk == "1"
+    words = all_words(sk, OPS_ARRAY, b["exhaustive_len_1d"] if full4 else b["exhaustive_len"], c["k1"], c["k2"], nof)
     for L, n in b["sampled"]:
         if full4 and L <= 4:
             continue
